@@ -31,6 +31,7 @@ type SchemaOpts struct {
 	Descriptions    bool // draw descriptions / deprecations (C10)
 	Directives      bool // custom directives (C02/C10)
 	NonNullDefaults bool // allow defaults on non-null arguments / input fields (C10 only)
+	ExtraObjects    bool // object types X0.. that implement interfaces but are referenced by nothing (AppendType)
 }
 
 var fieldNames = []string{"a", "b", "c", "d", "e", "f", "g"}
@@ -214,6 +215,19 @@ func Schema(t *T, o SchemaOpts) *model.Schema {
 			}
 		}
 	}
+	if o.ExtraObjects && len(ifaces) > 0 {
+		for i, n := 0, intn(t, 0, 2, "nExtra"); i < n; i++ {
+			td := &model.TypeDef{Kind: model.KObject, Name: fmt.Sprintf("X%d", i), Desc: desc(t, o, "extra"), HasIsTypeOf: true}
+			in := pick(t, ifaces, "extraIface")
+			td.Interfaces = []string{in}
+			for _, f := range ifaceDefs[in].Fields {
+				cp := *f
+				td.Fields = append(td.Fields, &cp)
+			}
+			td.Fields = append(td.Fields, &model.FieldDef{Name: "xa", Type: model.T("Int")})
+			s.Types = append(s.Types, td)
+		}
+	}
 	root := &model.TypeDef{Kind: model.KObject, Name: "Q", Desc: desc(t, o, "query")}
 	used := map[string]bool{}
 	for j, k := 0, intn(t, 2, 5, "nRootFields"); j < k; j++ {
@@ -322,7 +336,9 @@ func RuntimeValue(t *T, s *model.Schema, ty model.TypeRef, depth int, asDefault 
 		v := model.List()
 		v.L = []*model.Val{}
 		for i := 0; i < n; i++ {
-			if !ty.Inner().NonNull() && chance(t, 10, "nullElem") {
+			// a configured default cannot hold a null inside a list: this edition has no null
+			// literal, so introspection could not report it (excluded, DESIGN §3.3)
+			if !asDefault && !ty.Inner().NonNull() && chance(t, 10, "nullElem") {
 				v.L = append(v.L, model.Null())
 				continue
 			}
@@ -343,6 +359,12 @@ func RuntimeValue(t *T, s *model.Schema, ty model.TypeRef, depth int, asDefault 
 		for _, f := range td.InputFields {
 			need := f.Type.NonNull()
 			if !need && (depth <= 0 || f.Type.Name == td.Name || !chance(t, 60, "optField")) {
+				if asDefault && f.Default != nil {
+					// a configured default is given in coerced form: fields that have a default
+					// of their own carry it (otherwise reading the reported literal back, which
+					// applies field defaults, could not reproduce it)
+					v.O = append(v.O, model.F(f.Name, f.Default.Clone()))
+				}
 				continue
 			}
 			v.O = append(v.O, model.F(f.Name, RuntimeValue(t, s, f.Type, depth-1, asDefault)))
